@@ -44,6 +44,7 @@ CHECKS = {
         text="Every operation kind (18 op messages, 4 API events, 5 DML kinds, the 3 readiness probes they trigger) is pushed through the real ChannelWriter for every source database, mapping shape, insertion order of mapping entries and downstream answer; every call recorded at the fake DataHandler is compared with the reference mapping (routing database, request db/collection fields) and the writer's bookkeeping keys with source-name keys.",
         note="Finite input space enumerated completely. sync.Map iteration order is random and outside the harness' control: multi-entry mappings are repeated 24x (200x thorough) under every insertion order and all repetitions must agree. RBAC entity fields are C20's business. Two parts go below the DataHandler interface with the real SDK client against an in-process gRPC Milvus: 'handler' (23 operation kinds x 4 routing databases: dbname header and names of every RPC on the wire) and 'targetcalls' (collection / partition lookups of the real TargetClient under plain and chained mapping tables: the mapping is applied exactly once).",
         parts=[part("names", "core", "writer", "TestVerifC09Names", shards=(8, 16), budget=(150, 900)),
+               part("histories", "core", "writer", "TestVerifC09Histories", shards=(8, 16), budget=(150, 900)),
                part("target", "core", "reader", "TestVerifC09Target"),
                part("targetcalls", "core", "reader", "TestVerifC09TargetCalls", shards=(4, 8), budget=(150, 600)),
                part("handler", "core", "writer", "TestVerifC09Handler", shards=(4, 8), budget=(150, 600))],
